@@ -3,6 +3,7 @@ From RJ Require Import Base.Prelude Base.OrderedPlan Model.Settings Model.Core M
   Spec.PlanSpec Spec.Mirror Proofs.FsProofs Proofs.ExecProofs Proofs.DryProofs Proofs.ConfineProofs Proofs.MirrorProofs
   Proofs.QuietProofs Proofs.ConfinedMain Proofs.InstanceProofs Proofs.BlockProofs Proofs.ConfineAll Proofs.RepairMain.
 From RJ Require Model.Walker Proofs.WalkBridge Proofs.WalkedSync.
+From RJ Require Import Model.SpecRun Proofs.SpecProofs.
 
 (* In protocol terms: whatever the arguments, outcome, answers given to prompts or faults met, the
    source-side doer is only ever asked to report its root, list entries and read file contents ... *)
@@ -109,6 +110,12 @@ Example C02_former_witness_contained :
   fget (d_fs (r_dest r)) [["f"%char]] = Some (NLink ["t"%char] SKFile).
 Proof. vm_compute. repeat split; reflexivity. Qed.
 
+(* A spec with several syncs (Model/SpecRun.v): a root that is no sync's destination - in particular every root
+   that is only ever a source - holds exactly the same tree at the end of the run, however the run ends. *)
+Theorem C02_spec_untouched : forall jobs i st,
+  (forall j, In j jobs -> j_dst j <> i) -> sget (sp_store (run_spec jobs st)) i = sget st i.
+Proof. exact spec_untouched. Qed.
+
 Print Assumptions C02_source_only_read.
 Print Assumptions C02_clean_run_confined.
 Print Assumptions C02_through_needs_link.
@@ -127,3 +134,4 @@ From Coq Require Import String.
 Theorem C02_src_sites_read_only : impl_src_sends = Facts_sites.flit "GetEntries,GetFileContent,SetRoot"%string.
 Proof. reflexivity. Qed.
 Print Assumptions C02_walked_never_through.
+Print Assumptions C02_spec_untouched.
